@@ -478,7 +478,7 @@ def g_transform_dispatch(R, tier):
     def run(c):
         made = []
         st = {}
-        for cname in ("PendingNamedExpr", "PendingName", "PendingComp", "PendingExpr", "PendingLambda"):
+        for cname in ("PendingNamedExpr", "PendingName", "PendingComp", "PendingExpr", "PendingLambda", "PendingZeroArgSuper"):
             if not hasattr(E, cname):
                 continue
             def f(it, node, nsp=None, cname=cname):
@@ -486,7 +486,8 @@ def g_transform_dispatch(R, tier):
                 return Opaque(("pending", cname), object)
             st[f"oneliner.expr_transform:{cname}"] = f
         m = Machine(stubs=st)
-        nsp = CL.mk_nsp()
+        # (a method that uses zero-argument super(), first parameter `me`; C12/zero_argument_super has the other cases)
+        nsp = CL.mk_nsp(zero_arg_super_used=True, first_parameter="me")
         tr = m.call_value(E.ExpressionTransformer, nsp)
         node = CL.src("node")
         m.call_value(E.ExpressionTransformer.get_pending, tr, node)
@@ -514,6 +515,23 @@ def g_transform_dispatch(R, tier):
             if k in pysem.UNSUPPORTED_EXPRS:
                 R.fail(f"{base}/unsupported-expression-kind-is-rejected/{k.__name__}", f"{k.__name__} is accepted and copied into the output (README: not convertible)",
                        replay=dict(kind="src", src="def g():\n    yield 1\nr = list(g())\n" if k is not ast.Await else "async def g():\n    await x\n", expect="raises"))
+                continue
+            if k is ast.Call:
+                # PEP 3135: `super()` -- a call of the plain name super without arguments -- is the
+                # one call whose meaning depends on the function it sits in; every other call is generic
+                c = p.ctx
+                f = node.fields.get("func")
+                is_name = isinstance(f, Opaque) and f.cands == frozenset([ast.Name])
+                fid = f.fields.get("id") if is_name else None
+                named_super = isinstance(fid, Hole) and c.valid(fid.fact("=='super'"))[0]
+                def empty(field):
+                    x = node.fields.get(field)
+                    return x is not None and all(isinstance(i, Seg) and c13._provably_zero(c, i.length) for i in x)
+                in_function = v["nsp"].cands == frozenset([NS().NamespaceFunction])
+                zero_arg_super = bool(named_super and empty("args") and empty("keywords") and in_function)
+                exp = "PendingZeroArgSuper" if zero_arg_super else "PendingExpr"
+                R.check(f"{base}/dispatch/Call/{'zero-argument-super' if zero_arg_super else 'any-other-call'}/{sig}", ok and cname == exp and (cname == "PendingExpr" or v["made"][0][2] is v["nsp"]),
+                        f"Call (func={f!r} id={fid!r}) -> {v['made']!r}, expected {exp}", replay=dict(kind="src", src=__import__("suites.c07", fromlist=["_SUPER_SRC"])._SUPER_SRC, expect="same-globals"))
                 continue
             R.check(f"{base}/dispatch/{k.__name__}", ok and cname == exp and (cname == "PendingExpr" or v["made"][0][2] is v["nsp"]), f"{k.__name__} -> {v['made']!r}")
 
@@ -1310,3 +1328,6 @@ def _functiondef(R, tier):
 
 GROUPS["functiondef_scopes"] = _functiondef
 REPLAY.update({k: v for k, v in __import__("suites.c07", fromlist=["REPLAY"]).REPLAY.items() if k not in REPLAY})
+
+# bounded stand-ins for undecided obligations (olvc/oblig.py::main_check)
+STANDINS = {"*": [dict(kind="scope")]}
